@@ -36,13 +36,15 @@ def _kinds_of(pattern: List[ast.AST]) -> Optional[List[bool]]:
     return out
 
 
-def _targets(prog: Program, cat: Catalogue, opname: str):
-    """[(Func, [is_array per argument], backend module)] for every implementation of the op"""
+def _targets(prog: Program, cat: Catalogue, opname: str, op=None):
+    """[(Func, [is_array per argument], backend module, how)] for every implementation of the op: the default implementation
+    on Python scalars, every registration for numeric kinds in a backend module, and - when a backend has no registration
+    covering arrays - the default implementation on arrays (that is what the dispatcher falls back to)."""
     out = []
-    op = None
-    for fq, o in cat.ops.items():
-        if o.name == opname and (fq.startswith(OPS_MOD) or fq.startswith(BUILTIN_MOD)):
-            op = o
+    if op is None:
+        for fq, o in cat.ops.items():
+            if o.name == opname and (fq.startswith(OPS_MOD) or fq.startswith(BUILTIN_MOD)):
+                op = o
     if op is None:
         return None, out
     arity = cat.arity_of(op.fq) or 1
@@ -60,6 +62,17 @@ def _targets(prog: Program, cat: Catalogue, opname: str):
         if kinds is None:
             continue
         out.append((r.target, kinds, r.module.name, f"registered for ({', '.join(norm(p) for p in r.pattern)}) in {r.module.name}"))
+    if op.impl is not None and op.impl in prog.funcs_by_node and opname != "logsumexp":
+        f = prog.funcs_by_node[op.impl]
+        if not all(isinstance(s, (ast.Raise, ast.Expr)) for s in f.body):
+            for backend in BACKENDS:
+                if backend not in prog.modules:
+                    continue
+                covered = {tuple(k) for (_f, k, b, _h) in out if b == backend}
+                for kinds in itertools.product([True, False], repeat=arity):
+                    if any(kinds) and tuple(kinds) not in covered:
+                        what = ", ".join("array" if k else "scalar" for k in kinds)
+                        out.append((f, list(kinds), backend, f"default implementation reached for ({what}) on {backend}: no registration of `{op.var}` covers it"))
     return op, out
 
 
@@ -97,11 +110,13 @@ def run(prog: Program, col: Collector, refs: Refs, cat: Catalogue, rule_log: str
     # ------------------------------------------------------------------ R15.8 logaddexp / logsumexp / log-einsum
     col.rule(rule_log, "logaddexp, logsumexp and the log-space einsum are NaN-free on {-inf, finite} and exact at -inf (special-value abstract interpretation)", floor=5)
     n_scen = 0
-    for opname in ("logaddexp",):
-        op, targets = _targets(prog, cat, opname)
-        if op is None:
-            col.unresolved(f"op {opname}", "op not found in the catalogue", "")
-            continue
+    from .. import axioms
+    lae_ops = [o for o in cat.ops.values() if axioms.identify(cat, o) == "LOGADDEXP"]
+    if not lae_ops:
+        col.unresolved("op logaddexp", "no op identified as LOGADDEXP in the catalogue", "")
+    for op0 in sorted(lae_ops, key=lambda o: o.var):
+        opname = op0.var
+        op, targets = _targets(prog, cat, opname, op=op0)
         for f, kinds, backend, how in targets:
             ok = True
             for cx, cy in itertools.product(sorted(LOGDOM), repeat=2):
@@ -109,14 +124,15 @@ def run(prog: Program, col: Collector, refs: Refs, cat: Catalogue, rule_log: str
                 res, it = _run(prog, refs, cat, f, args, backend)
                 n_scen += 1
                 scen = f"{opname}({args[0]!r}, {args[1]!r})"
+                tag = f"{opname}({', '.join('array' if k else 'scalar' for k in kinds)}) at -inf [{backend.split('.')[1]}]"
                 if cx == NINF and cy == NINF:
-                    ok = _judge(col, f, f"{opname} at -inf", scen, res, it, want_exact={NINF}) and ok
+                    ok = _judge(col, f, tag, scen, res, it, want_exact={NINF}) and ok
                 else:
-                    ok = _judge(col, f, f"{opname} at -inf", scen, res, it, forbid={NINF}) and ok
+                    ok = _judge(col, f, tag, scen, res, it, forbid={NINF}) and ok
                 if not ok:
                     break
             if ok:
-                col.ok(f"{f.fq}::{opname} at -inf", f"{how}: 16 input class pairs, no NaN, -inf only for (-inf, -inf)", f.loc())
+                col.ok(f"{f.fq}::{tag}", f"{how}: 16 input class pairs, no NaN, -inf only for (-inf, -inf)", f.loc())
     op, targets = _targets(prog, cat, "logsumexp")
     subsets = [frozenset(s) for k in range(1, 5) for s in itertools.combinations(sorted(LOGDOM), k)]
     for f, kinds, backend, how in targets:
